@@ -1,13 +1,13 @@
 SPECIFICATION Spec
 CONSTANTS
   Deviations <- RealDevs
-  MaxNodes = 4
+  MaxNodes = 3
   MinNodes = 0
   MaxDepth = 2
   MaxBlock = 2
-  Kinds <- LoopKinds
+  Kinds <- AllKinds
   Tiny = FALSE
-  Ops = FALSE
+  Ops = TRUE
   Rich = FALSE
 INVARIANT DesignFaithful
 INVARIANT DeviationsExplain
